@@ -8,15 +8,26 @@ EXPLANATION = ('HMesh.refine is verified for every number of levels, every state
                'deactivated = old u marked, active = (old - marked) u children(marked one level below), the returned new cells are those '
                'children, and the invariants I1 (active and deactivated disjoint) and I2 (region of level l = children of the deactivated cells of '
                'level l-1) are preserved -- from which "active cells tile the domain exactly once" follows by induction over levels; the '
-               'children/parent algebra on integer tuples is verified for dim 1..3. Function activation (F1-F3), linear independence, THB '
-               'partition of unity/non-negativity, HB<->THB transforms, disparity, incidence matrix and container kinds are checked on the real '
-               'code over exhaustive short histories and random longer ones (bounded).')
+               'children/parent algebra on integer tuples is verified for dim 1..3. The activation clause is verified as an inductive invariant '
+               'F-inv of HSpace.refine (f active on level l <=> supp f inside region l and not inside region l+1; deactivated <=> inside region l+1) '
+               'over an uninterpreted function sort with a support relation: _functions_to_deactivate computes exactly the marked active functions '
+               'without an active cell, and the activation loop re-establishes F-inv on every level, using HMesh.refine and '
+               '_functions_to_deactivate through their contracts. The admissibility marking pass is closed under the neighbourhood operator on '
+               'every level and keeps the marks inside the active cells (contract of _cell_neighborhood), which is HMesh.refine\'s precondition. '
+               'Linear independence, THB partition of unity/non-negativity, HB<->THB transforms, the disparity bound itself, incidence matrix and '
+               'container kinds are checked on the real code over exhaustive short histories and random longer ones (bounded), which also '
+               're-check the proved clauses natively.')
 ASSUMPTIONS = ['cells are an uninterpreted sort with parent : Cell -> Cell; cell_children(lv, C) = {c : parent(c) in C} is the contract used inside '
                'HMesh.refine and is verified separately on integer tuples for dim 1..3 (one cell)',
-               'marked is a total map level -> set; the marks are active cells (HSpace.refine only adds active cells; bounded for _mark_recursive); '
-               'levels already exist (ensure_levels no-op)',
+               'basis functions are an uninterpreted sort with a support relation insupp(level, f, cell), supports non-empty; TPMesh.supported_in / '
+               'TPMesh.support are used through their contracts over insupp (assumed; exercised natively by the bounded tier)',
+               'marked is a total map level -> set (absent key = empty set); the marks passed by the user are active cells; levels already exist '
+               '(ensure_levels no-op)',
+               'HSpace.refine is verified in two parts that meet at the statement after the marking block: the marking-pass contract (stops there) and '
+               'the activation contract (marking block replaced by "marked is the dictionary after the pass")',
                'tiling from I1+I2+Omega_0: induction over levels, argued in DESIGN.md (not mechanised)',
-               'HSpace.refine/_functions_to_deactivate/_mark_recursive and all matrix-valued clauses are bounded only']
+               'matrix-valued clauses (independence, truncation, transforms), the disparity bound as a statement about supports, and container kinds '
+               'are bounded only']
 
 
 def contracts(tier):
@@ -30,7 +41,7 @@ def extra_obligations(tier):
 
 MANIFEST = {
     'category': 'proof',
-    'technique': 'contract-based deductive verification (pyvc: list-of-sets state over an uninterpreted cell sort, quantified loop invariant, z3); exhaustive/random refinement histories on the real code as bounded stand-in for the function-level and matrix-level clauses',
-    'text': 'The mesh transition HMesh.refine is proved from source for all level counts, states and markings to realise the intended set equations and to preserve the region invariants that imply the exact tiling; cell_children/cell_parent are proved to be mutually consistent enumerations (2^d distinct children, each with the right parent, complete) for d = 1..3. On all sequences of <=2 (thorough 3) refine calls over all non-empty subsets of active cells for small 1D meshes and the 2D 2x2 mesh, plus random multi-level histories in 1D-3D with p<=3, disparity in {1,2,inf}, both bases, marks as set/list/tuple: region invariants and tiling, activation iff support in region l but not in region l+1, deactivation iff in both, canonical order, linear independence, THB non-negativity and partition of unity, thb_to_hb/hb_to_thb mutually inverse and consistent, disparity bound, incidence matrix and support queries agree with the geometry (bounded).',
-    'note': 'uninterpreted cell sort; function-level and matrix-level clauses bounded; tiling bridge argument in DESIGN.md.',
+    'technique': 'contract-based deductive verification (pyvc: list-of-sets state over an uninterpreted cell and function sorts, quantified loop invariants, callee contracts, z3); exhaustive/random refinement histories on the real code as bounded stand-in for the matrix-level clauses',
+    'text': 'The mesh transition HMesh.refine is proved from source for all level counts, states and markings to realise the intended set equations and to preserve the region invariants that imply the exact tiling; cell_children/cell_parent are proved to be mutually consistent enumerations (2^d distinct children, each with the right parent, complete) for d = 1..3. The activation clause (active iff support in region l but not in region l+1, deactivated iff in both) is proved as an inductive invariant of HSpace.refine for all level counts, states and markings over an abstract support relation (_functions_to_deactivate and the activation loop under contract, HMesh.refine used through its contract); the marking pass is proved closed under the neighbourhood operator and to keep marks inside the active cells. On all sequences of <=2 (thorough 3) refine calls over all non-empty subsets of active cells for small 1D meshes and the 2D 2x2 mesh, plus random multi-level histories in 1D-3D with p<=3, disparity in {1,2,inf}, both bases, marks as set/list/tuple: region invariants and tiling, the activation clause again on real tensor-product supports, canonical order, linear independence, THB non-negativity and partition of unity, thb_to_hb/hb_to_thb mutually inverse and consistent, disparity bound, incidence matrix and support queries agree with the geometry (bounded).',
+    'note': 'uninterpreted cell and function sorts (support relation assumed for TPMesh.support/supported_in); matrix-level clauses and the disparity bound bounded; tiling bridge argument in DESIGN.md.',
 }
